@@ -262,6 +262,11 @@ func (w *World) binop(in ssa.Instruction, op token.Token, x, y *Int, xt, rt type
 		case bok:
 			return w.fit(in, k, w.mkInt(x.F().ScaleInt(b), &ar), "multiplication")
 		}
+		if w.Monomials {
+			if p, ok := w.product(x, y); ok {
+				return w.fit(in, k, p, "multiplication")
+			}
+		}
 		if !ar.Leq(k.rng()) {
 			w.fail(in, "multiplication may wrap: the result ranges over %s, outside %s", ar, kindName(k))
 			return w.opaqueInt(k.rng(), "wrapped product")
@@ -300,7 +305,14 @@ func (w *World) binop(in ssa.Instruction, op token.Token, x, y *Int, xt, rt type
 			}
 		}
 		ar := Itv{new(big.Int).Lsh(x.R.Lo, s), new(big.Int).Lsh(x.R.Hi, s)}
-		return w.fit(in, k, w.mkInt(x.F().Shl(s), &ar), "left shift")
+		res := w.fit(in, k, w.mkInt(x.F().Shl(s), &ar), "left shift")
+		if ar.Leq(k.rng()) && res.F().IsConst() == false {
+			// the unwrapped value is a multiple of 2^s
+			c := *res
+			c.tz = uint8(min(63, uint(x.tz)+s))
+			return &c
+		}
+		return res
 	case token.SHR:
 		if !bok {
 			return w.opaqueInt(k.rng(), "shift by a non-constant count")
@@ -328,6 +340,37 @@ func (w *World) binop(in ssa.Instruction, op token.Token, x, y *Int, xt, rt type
 		}
 		return w.opaqueInt(k.rng(), "&^ with a non-constant mask")
 	case token.OR, token.XOR:
+		if aok && a.Sign() == 0 {
+			return y
+		}
+		if bok && b.Sign() == 0 {
+			return x
+		}
+		if op == token.XOR {
+			// u ^ 1 = 1 - u for a 0/1 quantity u
+			for _, p := range [][2]*Int{{x, y}, {y, x}} {
+				if c, ok := concOf(p[1]); ok && c.Cmp(bigOne) == 0 && p[0].R.Leq(Itv{bigZero, bigOne}) {
+					ar := Itv{new(big.Int).Sub(bigOne, p[0].R.Hi), new(big.Int).Sub(bigOne, p[0].R.Lo)}
+					return w.mkInt(int64Form(1).Sub(p[0].F()), &ar)
+				}
+			}
+		}
+		// a multiple of 2^t combined with a value below 2^t: the bits are disjoint
+		for _, p := range [][2]*Int{{x, y}, {y, x}} {
+			tz := int(p[0].tz)
+			if l, ok := w.layoutOf(p[0]); ok && !l.isZero() {
+				n := 0
+				for n < 64 && l[n] == 0 {
+					n++
+				}
+				tz = max(tz, n)
+			}
+			if tz > 0 && p[0].R.NonNeg() && p[1].R.NonNeg() && p[1].R.Hi.BitLen() <= tz {
+				w.Stats["| of a multiple of 2^t with a value below 2^t (exact sum)"]++
+				ar := p[0].R.Add(p[1].R)
+				return w.fit(in, k, w.mkInt(p[0].F().Add(p[1].F()), &ar), op.String())
+			}
+		}
 		lx, okx := w.layoutOf(x)
 		ly, oky := w.layoutOf(y)
 		if okx && oky && !k.signed {
@@ -389,6 +432,19 @@ func (w *World) and(in ssa.Instruction, k ikind, x, y *Int) *Int {
 		x, y = y, x
 	}
 	m, mok := concOf(y)
+	if mok && m.Sign() >= 0 && !k.signed && len(x.F().ts) == 1 && x.F().c.Sign() == 0 {
+		// c & (u * all-ones) = c*u for a 0/1 quantity u (a mask that is all ones or zero)
+		ones := new(big.Rat).SetInt(pow2m1(k.bits))
+		t := x.F().ts[0]
+		if new(big.Rat).Abs(t.c).Cmp(ones) == 0 {
+			u := x.F().Scale(new(big.Rat).Inv(ones))
+			if ur := w.rangeOf(u); ur.Leq(Itv{bigZero, bigOne}) {
+				w.Stats["constant & all-ones-or-zero mask (exact product)"]++
+				ar := Itv{bigZero, m}
+				return w.mkInt(u.ScaleInt(m), &ar)
+			}
+		}
+	}
 	lx, okx := w.layoutOf(x)
 	ly, oky := w.layoutOf(y)
 	if okx && oky {
